@@ -314,7 +314,9 @@ def check_tuple_size(tuples, tuple_size, context):
 
 def check_y_valid_values_for_pairs(y):
   """Checks that y values are in [-1, 1]"""
-  if not np.array_equal(np.abs(y), np.ones_like(y)):
+  y = np.asarray(y)
+  if (not np.issubdtype(y.dtype, np.number) or
+          not np.array_equal(np.abs(y), np.ones_like(y))):
     raise ValueError("When training on pairs, the labels (y) should contain "
                      "only values in [-1, 1]. Found an incorrect value.")
 
